@@ -19,7 +19,7 @@ RULE = ('E1 enumeration of (object, rigid motion, card spelling): objects = plan
         'positively or both; abbreviated matrices (9, 6 rows/columns, 5, 3 entries, J placeholders) are '
         'recovered from the written planes.  Oracle: image f(B(x-O)) of the reference polynomial; '
         'identification + lattice comparison.  non-trivial = motion is not the identity and both senses '
-        'are realised; distinct = distinct deck text; also: three-point planes carried across the origin, orientation-reversing matrices')
+        'are realised; distinct = distinct deck text; also: three-point planes carried across the origin, orientation-reversing matrices, a second motion on top (TRCL inside a FILLed universe, FILL inside FILL)')
 ASSUMPTIONS = [
     'MCNP TR semantics: x_main = O + B^T x_aux, B1..B9 = cosines xx\' yx\' zx\' xy\' ... (rows = auxiliary axes), '
     'degrees for starred forms (DESIGN 5)',
